@@ -25,17 +25,11 @@ AllMuts == <<"none", "eager", "wrap", "bypos", "nomemo", "refail", "renest", "wr
 Idx(m) == 20 + CHOOSE i \in 1..Len(AllMuts) : AllMuts[i] = m
 ASSUME \A i \in 1..Len(AllMuts) : TLCSet(20 + i, FALSE)
 
-VARIABLES cfg, mut, ph, k, pst, used, nf, mon
-vars == <<cfg, mut, ph, k, pst, used, nf, mon>>
+VARIABLES cfg, mut, ph, k, pst, used, nf, q, mon
+vars == <<cfg, mut, ph, k, pst, used, nf, q, mon>>
 
 Names == <<"a", "#b", "c">>
 Perms(n) == {f \in [1..n -> 1..n] : \A i, j \in 1..n : i # j => f[i] # f[j]}
-
-(* feed events to the monitor; mon = [k, why, st] *)
-RECURSIVE Feed(_, _, _)
-Feed(C, m, evs) ==
-    IF Len(evs) = 0 \/ m.k # "ok" THEN m
-    ELSE Feed(C, Step(C, m.st, Head(evs)), Tail(evs))
 
 np == Len(cfg.mask)
 ArgFor(j) == CHOOSE i \in 1..np : cfg.ord[i] = j
@@ -50,8 +44,14 @@ Static == [funcs |-> << [params |-> [j \in 1..np |-> [name |-> Names[j], lazy |-
            sites |-> << [args |-> [i \in 1..np |-> [label |-> IF cfg.named THEN Names[cfg.ord[i]] ELSE "",
                                                     kind |-> cfg.kind[i], src |-> "s"]]] >>]
 
-Emit(evs) == /\ mon' = Feed(Static, mon, evs)
-             /\ (mon'.k = "bad" => TLCSet(Idx(mut), TRUE))
+(* the events of an action are queued and handed to the monitor one at a time; mon = [k, why, st] *)
+Emit(evs) == q = <<>> /\ q' = evs /\ UNCHANGED mon
+Deliver == /\ q # <<>> /\ mon.k = "ok"
+           /\ LET r == Step(Static, mon.st, Head(q)) IN
+              /\ mon' = [k |-> r.k, why |-> r.why, st |-> r.st]
+              /\ (r.k = "bad" => TLCSet(Idx(mut), TRUE))
+           /\ q' = Tail(q)
+           /\ UNCHANGED <<cfg, mut, ph, k, pst, used, nf>>
 
 Init == /\ mut \in Muts
         /\ \E n \in 1..MaxN : \E mask \in [1..n -> BOOLEAN] : \E named \in BOOLEAN :
@@ -61,7 +61,7 @@ Init == /\ mut \in Muts
                 /\ cfg = [mask |-> mask, named |-> named, ord |-> ord, kind |-> kind]
                 /\ pst = [i \in 1..n |-> "new"]
         /\ ph = "start" /\ k = 1 /\ used = {} /\ nf = 0
-        /\ mon = [k |-> "ok", why |-> "", st |-> Init0]
+        /\ q = <<>> /\ mon = [k |-> "ok", why |-> "", st |-> Init0]
 
 Site == /\ ph = "start"
         /\ Emit(<< <<"site", 1, 0>> >>)
@@ -71,7 +71,7 @@ Site == /\ ph = "start"
 (* arguments are prepared left to right: lazy ones wrapped, the others evaluated *)
 Prep == /\ ph = "prep" /\ k <= np
         /\ IF LZ(k)
-           THEN /\ k' = k + 1 /\ UNCHANGED <<ph, pst, mon>>
+           THEN /\ q = <<>> /\ k' = k + 1 /\ UNCHANGED <<ph, pst, q, mon>>
            ELSE IF cfg.kind[k] = "plain"
                 THEN /\ Emit(<< <<"ev", 1, k, 0>> >>)
                      /\ pst' = [pst EXCEPT ![k] = "done"] /\ k' = k + 1 /\ UNCHANGED ph
@@ -134,7 +134,7 @@ Force(j) ==
               /\ pst' = [pst EXCEPT ![i] = "failed"] /\ ph' = "idle"
     /\ UNCHANGED <<cfg, mut, k, used>>
 
-Next == \/ Site \/ Prep \/ Enter \/ EndPiece
+Next == \/ Deliver \/ Site \/ Prep \/ Enter \/ EndPiece
         \/ \E j \in 1..np : ReadStrict(j) \/ Subst(j) \/ Force(j)
 
 Spec == Init /\ [][Next]_vars
